@@ -223,12 +223,8 @@ func runC12(c *Ctx, w *World, r *Report) {
 						bad = "appended value " + fa.Lin(v).String() + " is not the tested position " + rd.PosLin.String()
 					}
 					guarded := false
-					for _, cd := range fa.Conds(call.Block()) {
-						if bo, ok := cd.V.(*ssa.BinOp); ok && (bo.Op == token.NEQ && cd.Pol || bo.Op == token.EQL && !cd.Pol) {
-							if k, ok := constInt64(stripConv(bo.Y)); ok && k == 0 && stripConv(bo.X) == rd.Use {
-								guarded = true
-							}
-						}
+					if bitKnownSet(fa.Conds(call.Block()), rd) {
+						guarded = true
 					}
 					if !guarded {
 						bad = "append is not guarded by (bit != 0)"
